@@ -4,7 +4,10 @@
 package c05
 
 import (
+	"encoding/json"
 	"fmt"
+	"os"
+	"time"
 	"math/rand"
 	"sort"
 	"strings"
@@ -89,7 +92,7 @@ func run(c *vk.Ctx) {
 	if err2 == nil {
 		defer trunc2.Close()
 	}
-	nCases := c.Pick(120, 1200)
+	nCases := c.Pick(120, 600)
 	sem.RunCases(c, base, "mem", nCases, gen.Options{}, 4, 8, func(i int, r *rand.Rand, p *sem.Prepared, contextual []*openfgav1.TupleKey) {
 		oneCase(c, i, r, p, contextual, servers, []*drive.Srv{trunc, trunc2})
 	})
@@ -137,10 +140,31 @@ func oneCase(c *vk.Ctx, i int, r *rand.Rand, p *sem.Prepared, contextual []*open
 			for si, ns := range servers {
 				streamed := (qi+si)%2 == 1
 				var lo drive.ListOutcome
-				if streamed {
-					lo = ns.s.StreamedListObjects(rq)
-				} else {
-					lo = ns.s.ListObjects(rq)
+				t0 := time.Now()
+				returned := drive.Watch(90*time.Second, func() {
+					if streamed {
+						lo = ns.s.StreamedListObjects(rq)
+					} else {
+						lo = ns.s.ListObjects(rq)
+					}
+				})
+				if !returned {
+					// far beyond the server's 40 s deadline: a hang. That is C20/C21's subject; here the
+					// request is inconclusive, its witness is kept for those checks.
+					c.Inconclusive("request did not return within 90s (server deadline 40s) on " + ns.name)
+					w := witness(p, rc, contextual, ns.name, mode, x.t, x.rel, x.subj, x.want, nil)
+					b, _ := json.MarshalIndent(map[string]any{"what": "ListObjects hang", "witness": w}, "", " ")
+					_ = os.WriteFile(fmt.Sprintf("%s/replay/C05-hang-seed%d-%s.json", vk.Root(), c.Seed, p.Case.Name), b, 0o644)
+					c.Logf("HANG on %s: ListObjects(%s, %s, %s) case=%s", ns.name, x.t, x.rel, x.subj, p.Case.Name)
+					continue
+				}
+				if el := time.Since(t0); el > 5*time.Second {
+					c.Count("requests_slower_than_5s", 1)
+					c.Seen("slow_request_engines", ns.name)
+					c.Logf("slow request (%.1fs) on %s: ListObjects(%s, %s, %s) ctx=%s case=%s answer=%v err=%v", el.Seconds(), ns.name, x.t, x.rel, x.subj, gen.CtxString(rctx), p.Case.Name, lo.Items, lo.Err)
+					if os.Getenv("VERIF_DEBUG") != "" {
+						c.Logf("model:\n%s\nstored: %v\ncontextual: %v", p.Ref.DSL(), gen.TupleStrings(p.Stored), gen.TupleStrings(contextual))
+					}
 				}
 				judge(c, p, rc, contextual, ns, mode, streamed, x.t, x.rel, x.subj, x.want, x.anyE, lo)
 			}
@@ -186,7 +210,11 @@ func judgeSound(c *vk.Ctx, p *sem.Prepared, rc *ref.Case, contextual []*openfgav
 	for _, o := range got {
 		if seen[o] {
 			ok = false
-			c.Violation("", "dup|"+cfg, fmt.Sprintf("ListObjects(%s, %s, %s) on %s returned %s twice: %v", t, rel, subj, cfg, o, got), witness(p, rc, contextual, cfg, mode, t, rel, subj, want, got))
+			f := ""
+			if strings.HasPrefix(cfg, "optimized") {
+				f = "C05-" + sem.FindingOptimizedOmits
+			}
+			c.Violation(f, "dup|"+cfg, fmt.Sprintf("ListObjects(%s, %s, %s) on %s returned %s twice: %v", t, rel, subj, cfg, o, got), witness(p, rc, contextual, cfg, mode, t, rel, subj, want, got))
 		}
 		seen[o] = true
 		if !wantSet[o] {
@@ -260,7 +288,30 @@ func judge(c *vk.Ctx, p *sem.Prepared, rc *ref.Case, contextual []*openfgav1.Tup
 		expect = len(want)
 	}
 	if len(gotSet) != expect {
-		c.Violation(sem.ClassifyLimit("C05", ns.name, rc, rel, subj, want, got, mode), "limit|"+ns.name+"|"+ref.Shape(p.Ref.Rewrite(t, rel)),
+		f := ""
+		if len(gotSet) < expect {
+			// a shortfall is attributed to a Check-level finding only if, with the objects that finding
+			// explains removed from the reference set, the count is right
+			f = sem.ClassifyLimit("C05", ns.name, rc, rel, subj, want, got, mode)
+			if f == "" && len(want) > 0 {
+				f = sem.ClassifyList("C05", ns.name, p, rc, want[0], rel, subj, false)
+			} else if f != "" {
+				unexplained := 0
+				for _, o := range want {
+					if !gotSet[o] && sem.ClassifyCheck("C05", rc, sem.Request{Object: o, Relation: rel, User: subj, Ctx: rc.Context}, ref.T, drive.Outcome{Allowed: false}, mode) == "" {
+						unexplained++
+					}
+				}
+				reduced := len(gotSet) + unexplained
+				if reduced > ns.limit {
+					reduced = ns.limit
+				}
+				if len(gotSet) < reduced {
+					f = ""
+				}
+			}
+		}
+		c.Violation(f, "limit|"+ns.name+"|"+ref.Shape(p.Ref.Rewrite(t, rel)),
 			fmt.Sprintf("%s(%s, %s, %s) on %s with result limit %d returned %d distinct objects %v; reference set %v (expected exactly %d)", api, t, rel, subj, ns.name, ns.limit, len(gotSet), got, want, expect),
 			witness(p, rc, contextual, ns.name, mode, t, rel, subj, want, got))
 	}
